@@ -1,6 +1,7 @@
 /- driver for queue traces (C04, C05) -/
 import Driver.CollDrv
 import CollectionModel.Model.Queue
+import CollectionModel.Model.Pipes
 open Lean CM CM.Q
 
 namespace Drv
@@ -82,5 +83,28 @@ where
   ctorTraceOf : List Int → List (Ev Int)
     | [] => []
     | v :: vs => .call 0 (.addLock v) :: .addLock 0 :: .addSend 0 :: ctorTraceOf vs
+
+end Drv
+
+namespace Drv
+open CM.Pipes
+
+def pipeLine (j : Json) : String :=
+  let op := str j "op"
+  let input := ints j "input"
+  let fan := nat j "fan"
+  let outs := (arr j "outs").toList.map fun g => (g.getArr?.toOption.getD #[]).toList.map toInt
+  let closedAll := (arr j "closed").toList.all (fun b => b.getBool?.toOption.getD false)
+  let expected : List (List Int) :=
+    if op == "fork" then List.replicate fan input
+    else if op == "split" then (List.range fan).map (fun k => splitSpec fan k 0 input)
+    else [input]
+  let spec := firstFail [
+    ("not-terminated", str j "status" == "done"),
+    ("wait-group-not-released", nat j "group" == 0 && int j "group" == 0),
+    ("output-not-closed", closedAll),
+    ("value-after-closure", !bool j "late"),
+    ("stream-not-conserved", outs == expected)]
+  verdict true spec.isNone s!"C06/{spec.getD "ok"}/{op}" s!"expected {expected}"
 
 end Drv
